@@ -42,6 +42,14 @@ CORE = "onnx_ir._core"
 
 # ---- R2: rejection points that cannot fire where they are reached -----------------------------
 # (regex on "Origin.local: condition", regex on the via-chain or None, reason)
+def _unnamed_twice_guard(text: str) -> bool:
+    """The validation rejects an unnamed value that is given under a second key: the rejection holds under a test that the value
+    has no name (`not v.name`, directly or as the negation of an earlier `if v.name: continue`) and compares the key recorded for
+    `id(v)` with the current key."""
+    unnamed = re.search(r"not \(?\(?[\w$]+\.name\b", text) is not None
+    return unnamed and "id(" in text and ("!=" in text or " is not " in text)
+
+
 def _complete_step_guard(text: str) -> bool:
     """The validation rejects EVERY extended slice whose size differs from the assigned sequence: a conjunction of a test that
     holds for every step other than None and 1 (`<i>.step not in (None, 1)`, `<i>.step is not None and <i>.step != 1`) and of
@@ -95,7 +103,7 @@ INFEASIBLE = [
     {"guard": "^GraphInitializers\\.(__setitem__|_check_item): (key|\\$p1) == ''", "via": 'Value\\.name\\.setter', "why": "the setter rejects the empty string for an initializer before anything is written (fix 5006b98)", "requires": ("value == ''",)},
     {"guard": '^GraphInitializers\\.(__setitem__|_check_item): not isinstance\\((key|\\$p1), str\\)', "via": 'Value\\.name\\.setter', "why": 'the new name is annotated str | None and None is rejected up front; a non-string name is a type-violating call (wrong Python types are outside the property, see NOT_DECIDED)', "requires": ()},
     {"guard": '^Value\\.name\\.setter: ', "via": 'GraphInitializers\\.(__setitem__|_check_item), .*Value\\.name\\.setter|Value\\.name\\.setter, .*GraphInitializers\\.(__setitem__|_check_item), .*Value\\.name\\.setter', "why": "__setitem__ names the value only when it has no name; re-entry of the setter from the setter's own re-keying sees name == key and returns early", "requires": ()},
-    {"guard": '^GraphInitializers\\.(__setitem__|_check_item): (not \\(not value\\.name\\) and key != value\\.name|value\\.name and key != value\\.name|\\$p2\\.name and \\$p1 != \\$p2\\.name)', "via": 'GraphInitializers\\.update', "why": 'the commit writes `value.name = key` only for an unnamed value, and update rejects up front an unnamed value given under two different keys (fix b8d1d7f), so no key is ever compared with a name set for an earlier key', "requires": ('not \\$\\d+\\.name and .*id\\(\\$\\d+\\)',)},
+    {"guard": '^GraphInitializers\\.(__setitem__|_check_item): (not \\(not value\\.name\\) and key != value\\.name|value\\.name and key != value\\.name|\\$p2\\.name and \\$p1 != \\$p2\\.name)', "via": 'GraphInitializers\\.update', "why": 'the commit writes `value.name = key` only for an unnamed value, and update rejects up front an unnamed value given under two different keys (fix b8d1d7f), so no key is ever compared with a name set for an earlier key', "requires": (_unnamed_twice_guard,)},
     {"guard": '^UserList\\.__setitem__@_GraphIO: `i` is an extended slice', "via": '_GraphIO\\.__setitem__', "why": 'the index branch runs under isinstance(i, SupportsIndex); the slice branch rejects an extended slice whose size differs from the assigned sequence before it releases or adopts anything (fix df0f9ca)', "requires": (_complete_step_guard,)},
     {"guard": '^UserDict\\.__delitem__@GraphInitializers: key of `del self\\.data\\[key\\]` absent', "via": 'Value\\.name\\.setter', "why": 'an initializer is stored under its current name (C01-R3d), which is the key popped', "requires": ()},
     {"guard": '^UserDict\\.__delitem__@GraphInitializers: key of `del self\\.data\\[key\\]` absent', "via": 'GraphInitializers\\.__delitem__', "why": '__delitem__ reads self.data[key] (KeyError before any write) before unsetting', "requires": ()},
@@ -199,16 +207,14 @@ def prevalidated(ef: Effects, f: FuncInfo, c_event, rej) -> str | None:
         l2, it2 = _loop_of(site, a2, f.node)
         if l1 is None and l2 is None and a1 == a2 and cfg.dominates(xn[0], sn[0]):
             return f"{pure[0].local}({a1}) was called before any write"
-        if l1 is not None and l2 is None and isinstance(l1, ast.For) and it1 in (a2, f"{a2}.items()", f"{a2}.values()") and not any(
-                isinstance(n, (ast.Break, ast.Continue, ast.Return)) for n in ast.walk(l1)):
+        if l1 is not None and l2 is None and isinstance(l1, ast.For) and it1 in (a2, f"{a2}.items()", f"{a2}.values()") and _checks_every_element(l1, x):
             # the whole container is handed to a callee after each of its elements passed the checker
             ln = [n for n in cfg.node_of(l1) if n.kind == "iter"]
             if ln and cfg.dominates(ln[0], sn[0]):
                 if _interferes(ef, f, site, rej):
                     continue
                 return f"every element of `{a2}` passed {pure[0].local} before the container is handed over"
-        if l1 is not None and l2 is not None and l1 is not l2 and it1 == it2 and not any(
-                isinstance(n, (ast.Break, ast.Continue, ast.Return)) for n in ast.walk(l1)):
+        if l1 is not None and l2 is not None and l1 is not l2 and it1 == it2 and _checks_every_element(l1, x):
             # the whole validation loop precedes the commit loop
             ln = [n for n in cfg.node_of(l1) if n.kind == "iter"]
             if (ln and cfg.dominates(ln[0], sn[0])) or not isinstance(l1, ast.For):
@@ -216,6 +222,22 @@ def prevalidated(ef: Effects, f: FuncInfo, c_event, rej) -> str | None:
                     continue
                 return f"every element of `{it1}` passed {pure[0].local} in an earlier loop"
     return None
+
+
+def _checks_every_element(loop, check_call) -> bool:
+    """The validation loop applies the checker to every element: nothing ends the loop early (break), and no iteration is left
+    (continue / return) before the checker has run - a `continue` in a statement that FOLLOWS the check skips nothing of it."""
+    body = getattr(loop, "body", None)
+    if not isinstance(body, list):
+        return not any(isinstance(n, (ast.Break, ast.Continue, ast.Return)) for n in ast.walk(loop))
+    idx = next((i for i, st in enumerate(body) if any(check_call is y for y in ast.walk(st))), None)
+    if idx is None:
+        return False
+    if any(isinstance(n, ast.Break) for st in body for n in ast.walk(st) if not isinstance(st, (ast.For, ast.While)) or True):
+        return False
+    if any(isinstance(n, (ast.Continue, ast.Return)) for st in body[: idx + 1] for n in ast.walk(st)):
+        return False
+    return True
 
 
 def _commit_writes(ef: Effects, g: FuncInfo, attr: str, depth=0, seen=None):
@@ -288,14 +310,24 @@ def _expanded_guard(f: FuncInfo, raise_node) -> str:
         if isinstance(n, ast.Assign) and len(n.targets) == 1 and isinstance(n.targets[0], ast.Name):
             binds.setdefault(n.targets[0].id, norm(n.value))
     out = []
-    p = getattr(raise_node, "_parent", None)
+
+    def expand(t: str) -> str:
+        for name, val in binds.items():
+            t = re.sub(r"(?<![\w.])%s(?![\w(])" % re.escape(name), f"({val})", t)
+        return t
+
+    child, p = raise_node, getattr(raise_node, "_parent", None)
     while p is not None and p is not f.node:
         if isinstance(p, ast.If):
-            t = norm(p.test)
-            for name, val in binds.items():
-                t = re.sub(r"(?<![\w.])%s(?![\w(])" % re.escape(name), f"({val})", t)
-            out.append(t)
-        p = getattr(p, "_parent", None)
+            out.append(expand(norm(p.test)))
+        # what held when an earlier statement of the same block did not leave: `if c: continue` before the raise adds `not (c)`
+        for fld in ("body", "orelse"):
+            b = getattr(p, fld, None)
+            if isinstance(b, list) and any(child is st for st in b):
+                for st in b[: next(i for i, y in enumerate(b) if y is child)]:
+                    if isinstance(st, ast.If) and not st.orelse and st.body and isinstance(st.body[-1], (ast.Continue, ast.Return, ast.Break)):
+                        out.append(expand(f"not ({norm(st.test)})"))
+        child, p = p, getattr(p, "_parent", None)
     return " && ".join(out)
 
 
